@@ -677,6 +677,48 @@ static void __attribute__((noinline)) stack_object_frame2(void) {
 #undef LIT
 static void stack_object_frame(int variant) { if (variant == 0) { stack_object_frame0(); } else if (variant == 1) { stack_object_frame1(); } else { stack_object_frame2(); } }
 
+/* ---------- heap objects whose destructors delete each other, released by the collector ----------
+** A pair (or ring of three) of objects of a type with its own allocator; each destructor deletes the next object.
+** Nothing refers to them; garbage is produced until collections have run.  However the sweep and the destructors
+** interleave, every member is destructed once and handed back to its allocator once. */
+enum { RN_MAX = 256 };
+struct RNode { int64_t slot; var next; };
+static long rn_destructs[RN_MAX], rn_releases[RN_MAX]; static int rn_next_slot;
+static var RNode;
+static var RNode_Alloc(void) { struct Header* h = calloc(1, sizeof(struct Header) + sizeof(struct RNode)); return header_init(h, RNode, AllocHeap); }
+static void RNode_Dealloc(var self) { struct RNode* n = self; if (n->slot >= 0 && n->slot < RN_MAX) { rn_releases[n->slot]++; } if (n->slot >= 0 && n->slot < RN_MAX && rn_releases[n->slot] == 1) { free((char*)self - sizeof(struct Header)); } }
+static void RNode_New(var self, var args) { struct RNode* n = self; n->slot = c_int(get(args, $I(0))); n->next = NULL; }
+static void RNode_Del(var self) { struct RNode* n = self; if (n->slot < 0 || n->slot >= RN_MAX) { return; } if (++rn_destructs[n->slot] > 1) { return; } if (n->next) { del(n->next); } }
+static var RNode = Cello(RNode, Instance(Alloc, RNode_Alloc, RNode_Dealloc), Instance(New, RNode_New, RNode_Del));
+
+static void __attribute__((noinline)) rn_make(int n, int first_slot) {
+  var first = NULL, prev = NULL;
+  for (int i = 0; i < n; i++) { var x = new(RNode, $I(first_slot + i)); if (prev) { ((struct RNode*)prev)->next = x; } else { first = x; } prev = x; }
+  ((struct RNode*)prev)->next = first;
+}
+static void __attribute__((noinline)) rn_scrub(void) { volatile char pad[4096]; for (size_t i = 0; i < sizeof pad; i++) { pad[i] = 0; } }
+static void __attribute__((noinline)) rn_churn(int k) { for (int i = 0; i < k; i++) { var g = new(Int, $I(i)); (void)g; } }
+static void mutual_owners_released_once(vh_rng* r) {
+  int n = 2 + (int)vh_below(r, 2);
+  if (rn_next_slot + n > RN_MAX) { return; }
+  int s0 = rn_next_slot; rn_next_slot += n;
+  rn_make(n, s0);
+  rn_scrub();
+  rn_churn(2500);
+  vh_evals((uint64_t)n);
+  int collected = 0;
+  for (int i = 0; i < n; i++) {
+    if (rn_destructs[s0 + i] > 1 || rn_releases[s0 + i] > 1) {
+      vh_violation(K("heap-object-released-more-than-once", "collector"), "member %d of a ring of %d heap objects whose destructors delete each other: destructed %ld times, released %ld times by the collector", i, n, rn_destructs[s0 + i], rn_releases[s0 + i]);
+      return;
+    }
+    if (rn_destructs[s0 + i] != rn_releases[s0 + i]) { vh_violation(K("heap-object-destructed-but-not-released", "collector"), "member %d of a ring: destructed %ld times, released %ld times", i, rn_destructs[s0 + i], rn_releases[s0 + i]); return; }
+    collected += rn_releases[s0 + i] == 1;
+  }
+  if (collected == n) { vh_count("rings_of_mutual_owners_released_once"); }
+  vh_count("rings_of_mutual_owners");
+}
+
 static void case_random(vh_rng* r, long index) {
   size_t n = 1 + vh_below(r, 90);
   vh_op("enumeration at container size %zu", n);
@@ -686,6 +728,7 @@ static void case_random(vh_rng* r, long index) {
   iterator_results_after_edits(r, n);
   empty_sources(r); empty_sources(r);
   stack_object_frame((int)(index % 3));
+  mutual_owners_released_once(r);
   if (index % 4 == 0) { run_fresh_thread(); }
   vh_nontrivial();
 }
